@@ -141,13 +141,16 @@ def main():
                 kw["max_checkpoints"] = op["max"]
             if op.get("async") is not None:
                 kw["enable_async_checkpointing"] = op["async"]
+            rcls = solver_class(op["via_class"]) if op.get("via_class") else cls
             try:
                 if op.get("positional"):
                     # the documented parameter order, passed positionally
-                    solver = cls.restore(op["dir"], op.get("step"), op.get("new_dir"), op.get("freq"), op.get("max"),
-                                         op.get("async"))
+                    solver = rcls.restore(op["dir"], op.get("step"), op.get("new_dir"), op.get("freq"), op.get("max"),
+                                          op.get("async"))
                 else:
-                    solver = cls.restore(op["dir"], **kw)
+                    # restore() is a class method of the shared mixin: called through ANY solver class it rebuilds the
+                    # solver named in the directory's configuration
+                    solver = rcls.restore(op["dir"], **kw)
                 _verif.emit("x_restore_ok", solver=solver, config=config_text(solver),
                             req=op.get("step"),
                             freq=int(solver.checkpoint_frequency), maxkeep=int(solver.max_checkpoints),
